@@ -48,7 +48,7 @@ def plan(tier, prop):
                             "mc_boot", "mc_boot_already_booted",
                             "mc_boot_failed", "max_size_image",
                             "short_last_block", "send_error_reached_caller",
-                            "deprecated_dimensions"],
+                            "deprecated_dimensions", "zero_tail_image"],
         "knob_ranges": {"image_bytes": "512..32764 (word multiples) or "
                         "bundled scamp.boot", "boots": "1-5",
                         "boot_delay": [0.0, 0.01, 0.05],
@@ -316,6 +316,13 @@ class BootEngine(object):
                 w.probe("max_size_image")
             image = t.bytes(512) + bytes((i * 31 + size) & 0xff
                                          for i in range(size - 512))
+            if t.draw(4) == 0:
+                # ends in zero-initialised data (part of a block, a whole
+                # block, several blocks)
+                w.probe("zero_tail_image")
+                nz = min([4, 100, 1024, 1500, 3072, 8192][t.draw(6)],
+                         size - 512)
+                image = image[:size - nz] + bytes(nz)
             name = "/sim/boot%d.bin" % len(self.files)
             self.files[name] = image
             kwargs["scamp_binary"] = name
